@@ -6,8 +6,8 @@ import (
 	"testing"
 	"time"
 
-	orbitdb "berty.tech/go-orbit-db"
 	"berty.tech/go-ipfs-log/identityprovider"
+	orbitdb "berty.tech/go-orbit-db"
 	"berty.tech/go-orbit-db/address"
 	"berty.tech/go-orbit-db/iface"
 	"berty.tech/go-orbit-db/stores/eventlogstore"
